@@ -29,7 +29,7 @@ RULE = (
 ASSUMPTIONS = ["sequence patterns applied to str-valued fields and field names that are properties/methods are not generated (don't-care)"]
 MUST_SEE = [
     "tail_vs_too_short", "capture_on_seq_with_tail", "two_any_captures", "var_node_other_origin", "second_alternative_subclass",
-    "matches", "mismatches", "reasked", "multi_questions", "regex_middle_only", "tail_capture", "empty_seq_vs_nonempty",
+    "matches", "mismatches", "reasked", "multi_questions", "regex_middle_only", "tail_capture", "empty_seq_vs_nonempty", "reasked_after_rejected",
 ]
 CONFIG = {
     "quick": {"shards": 16, "trees": 25, "patterns_per_node": 3, "watchdog_s": 600},
@@ -234,9 +234,14 @@ def run_shard(ctx):
         # ---- history leg: re-ask earlier questions
         if history:
             for text, t, node, (ok0, caps0) in rng.sample(history, min(25, len(history))):
-                mode = rng.choice(["hot", "cold", "cold-after-others"])
+                mode = rng.choice(["hot", "cold", "cold-after-others", "cold-after-rejected"])
                 if mode != "hot":
                     PM._MATCHER_CACHE.pop(text, None)
+                if mode == "cold-after-rejected":
+                    # a definition rejected half-way (it already registered every capture name there is)
+                    names = " ".join(f"@v -> {c}" for c in RP.CAP_NAMES)
+                    NodeMatcher.from_pattern(f"({P}Leaf {names} @s=(NoSuchClass))")
+                    ctx.count("reasked_after_rejected")
                 ctx.count("reasked")
                 m, msg = NodeMatcher.from_pattern(text)
                 ctx.evaluations += 1
